@@ -119,14 +119,14 @@ struct TracePoint
 struct Prefix
 {
   uint16_t n;
-  uint8_t cost[4]; // used per class
+  uint8_t cost[5]; // used per class
   uint64_t hashAtLast;
   struct
   {
     uint32_t idx;
     uint8_t alt;
   } dev[MAXDEV];
-  int total() const { return cost[1] + cost[2] + cost[3]; }
+  int total() const { return cost[1] + cost[2] + cost[3] + cost[4]; }
 };
 
 enum ExecStatus
@@ -338,6 +338,7 @@ struct Sched
   ExecShared *ex = nullptr;
   bool pointBeforeUnlock = false;
   bool spurious = false;
+  bool chargeSwitch = false;
   uint64_t yieldSpin = 0;
 };
 Sched S;
@@ -631,7 +632,7 @@ void scheduleFrom(Thr *self)
     {
       uint8_t costs[MAXT * 2 + 2];
       for (int i = 0; i < ne; ++i)
-        costs[i] = (selfEnabled && i > 0) ? MC_PREEMPT : MC_FREE;
+        costs[i] = i == 0 ? MC_FREE : (selfEnabled ? MC_PREEMPT : (S.chargeSwitch ? MC_SWITCH : MC_FREE));
       int k = ne;
       if (timeOpt)
         costs[k++] = MC_TIMER;
@@ -1582,6 +1583,7 @@ ChildOutcome runChild(const RunCfg &cfg, const Prefix &p, ExecShared *ex, double
     S.horizonNs = S.monoNs + uint64_t(cfg.sc->horizon_s * 1e9);
     S.pointBeforeUnlock = cfg.sc->point_before_unlock;
     S.spurious = cfg.sc->spurious_wakeups;
+    S.chargeSwitch = cfg.b.S >= 0;
     Thr *t0 = newThr();
     snprintf(t0->label, sizeof t0->label, "main");
     t0->pt = pthread_self();
@@ -1840,14 +1842,14 @@ void processPrefix(WorkerCtx &c, const Prefix &p)
     }
     __atomic_fetch_add(&G->violations, 1, __ATOMIC_RELAXED);
     r.violation(clause.c_str(), sig, caseString(c, p),
-                detail + "\n--- observations ---\n" + obs.substr(0, 1500) + "\ncost(P,T,E)=" + std::to_string(p.cost[1]) + "," +
-                    std::to_string(p.cost[2]) + "," + std::to_string(p.cost[3]));
+                detail + "\n--- observations ---\n" + obs.substr(0, 1500) + "\ncost(P,T,E,S)=" + std::to_string(p.cost[1]) + "," +
+                    std::to_string(p.cost[2]) + "," + std::to_string(p.cost[3]) + "," + std::to_string(p.cost[4]));
     np = c.ex->npoints;
   }
   // expand alternatives after the last deviation
   uint32_t from = p.n ? p.dev[p.n - 1].idx + 1 : 0;
   const McBounds &b = c.cfg.b;
-  int totalCap = b.total >= 0 ? b.total : b.P + b.T + b.E;
+  int totalCap = b.total >= 0 ? b.total : b.P + b.T + b.E + (b.S > 0 ? b.S : 0);
   for (uint32_t i = from; i < np; ++i)
   {
     const TracePoint &tp = ex->pts[i];
@@ -1858,7 +1860,7 @@ void processPrefix(WorkerCtx &c, const Prefix &p)
       if (cls)
       {
         q.cost[cls]++;
-        if (q.cost[1] > b.P || q.cost[2] > b.T || q.cost[3] > b.E || q.total() > totalCap)
+        if (q.cost[1] > b.P || q.cost[2] > b.T || q.cost[3] > b.E || (b.S >= 0 && q.cost[4] > b.S) || q.total() > totalCap)
           continue;
       }
       if (q.n >= MAXDEV)
@@ -1976,7 +1978,7 @@ int mc_main(int argc, char **argv, const char *part, const std::vector<McScenari
     RunCfg cfg;
     cfg.sc = &sc;
     cfg.b = args.thorough() ? sc.thorough : sc.quick;
-    int totalCap = cfg.b.total >= 0 ? cfg.b.total : cfg.b.P + cfg.b.T + cfg.b.E;
+    int totalCap = cfg.b.total >= 0 ? cfg.b.total : cfg.b.P + cfg.b.T + cfg.b.E + (cfg.b.S > 0 ? cfg.b.S : 0);
     // fresh global counters per scenario
     G->states.init(1 << 22);
     G->outcomes.init(1 << 18);
@@ -2025,6 +2027,19 @@ int mc_main(int argc, char **argv, const char *part, const std::vector<McScenari
         {
           prctl(PR_SET_PDEATHSIG, SIGKILL);
           blockSigchld();
+          {
+            // Pin the worker (and thereby every thread of its execution children) to one CPU: exactly one
+            // scheduler thread runs at a time, so a hand-off becomes a same-core context switch instead of a
+            // cross-core wake-up that has to queue behind unrelated load.
+            long ncpu = sysconf(_SC_NPROCESSORS_ONLN);
+            if (ncpu > 0 && !getenv("MC_NO_PIN"))
+            {
+              cpu_set_t set;
+              CPU_ZERO(&set);
+              CPU_SET(int(w % ncpu), &set);
+              sched_setaffinity(0, sizeof set, &set);
+            }
+          }
           WorkerCtx c;
           c.cfg = cfg;
           c.w = w;
@@ -2122,7 +2137,7 @@ int mc_main(int argc, char **argv, const char *part, const std::vector<McScenari
     total.states += *G->states.count;
     total.distinct_nontrivial += *G->outcomes.count;
     char bb[128];
-    snprintf(bb, sizeof bb, "P<=%d T<=%d E<=%d total<=%d", cfg.b.P, cfg.b.T, cfg.b.E, totalCap);
+    snprintf(bb, sizeof bb, "P<=%d T<=%d E<=%d S%s%d total<=%d", cfg.b.P, cfg.b.T, cfg.b.E, cfg.b.S < 0 ? " unbounded " : "<=", cfg.b.S, totalCap);
     total.bounds[sc.name] = bb;
     if (!scExhaustive)
       total.notes.push_back("scenario " + sc.name + ": not exhaustive within bounds (deadline/cap/truncation); completed deviation bound " +
